@@ -218,7 +218,9 @@ def c13(report):
     jobs = []
     feats = ["std", "dup", "zero", "far"] if report.tier == "thorough" else ["std", "dup", "far"] + (["zero"] if report.seed % 3 == 0 else [])
     for feat in feats:
-        over = dict(Feat=feat, QueryRows={0}, Labels={"a", "b", "c", "d"}, InitArms=["a", "b", "c"], MaxBatch=1,
+        # the "std" jobs switch between two feature maps from call to call (the caller updates its dictionary in place)
+        over = dict(Feat=["std", "far"] if feat == "std" else feat, QueryRows={0}, Labels={"a", "b", "c", "d"},
+                    InitArms=["a", "b", "c"], MaxBatch=1,
                     Quantiles={(0, 1), (1, 4), (1, 2), (1, 1)}, Rewards={1, 3})
         fj = cf_jobs(WARM_LPS, report.tier, report.seed, ops=ops, over=over, tag="-" + feat, sims=(feat == "std"),
                      checks=("state",))
@@ -975,8 +977,11 @@ def replay(prop, path):
                                      epsilon=b["epsilon"], container=b["container"], perm_seed=b.get("perm_seed"),
                                      shift=b.get("shift", 0), scale=b.get("scale", 1), preconv=b.get("preconv"),
                                      addarm_bin=b.get("addarm_bin"))
-        rep = cf.Replay(binding, feat=finding.get("consts", {}).get("Feat", {}))
-        rep.run(finding["trace"])
+        rep = cf.Replay(binding, feat=finding.get("consts", {}).get("FeatSets") or finding.get("consts", {}).get("Feat", {}))
+        if finding.get("path_mode"):
+            rep.run_paths(finding["trace"])
+        else:
+            rep.run(finding["trace"])
         for f in rep.findings:
             print("  %s %s: %s" % (f["clause"], f["op"], f["detail"][:500]))
         if any(f["clause"] == finding["clause"] for f in rep.findings):
